@@ -41,7 +41,7 @@ type c06Second struct {
 	Exit  vh.Exit `json:"exit"`
 }
 
-var c06RtFaults = []string{"earlyExit", "beforeNext", "afterInitError", "afterNext", "afterResponse", "idle"}
+var c06RtFaults = []string{"launchFail", "earlyExit", "beforeNext", "afterInitError", "afterNext", "afterResponse", "idle"}
 var c06ExtFaults = []string{"launchFail", "earlyExit", "beforeRegister", "afterRegister", "afterFirstEvent", "afterInitErrorReport", "afterExitErrorReportInit", "afterExitErrorReportEvent"}
 var c06Exits = []vh.Exit{{Code: 0}, {Code: 3}, {Signal: 9}, {Signal: 11}}
 
@@ -87,6 +87,9 @@ func genC06(tier string, seed int64) []Case {
 	for nExt := 0; nExt <= 2; nExt++ {
 		for _, ex := range c06Exits {
 			for _, f := range c06RtFaults {
+				if f == "launchFail" && (ex.Code != 0 || ex.Signal != 0) {
+					continue
+				}
 				for _, tm := range []string{"early", "late"} {
 					if tm == "late" && (duringInvoke(f) || f == "afterResponse" || f == "idle") {
 						continue
@@ -245,6 +248,9 @@ func runC06(c *Ctx, d c06Desc) {
 			}})}
 		}
 		f, ex := faultFor("rt")
+		if f == "launchFail" {
+			return vh.ExecPlan{Fail: errors.New("fork/exec " + p.Path + ": exec format error")}
+		}
 		if f == "earlyExit" {
 			// the process is gone (and its exit event offered) before Exec returns
 			return vh.ExecPlan{EarlyExit: &ex}
@@ -515,6 +521,15 @@ func runC06(c *Ctx, d c06Desc) {
 	cls := d.Who[:1] + ":" + d.Fault
 	// 1. failure status
 	c.Check(status == "invokefail" || status == "initfail", "failure_status", "C06/status/"+cls+"/"+status, fmt.Sprintf("fault %s by %s: invocation ended %q instead of a failure status", d.Fault, d.Who, status), nil)
+
+	if d.Who == "rt" && d.Fault == "launchFail" && status == "ok" {
+		// the launch was silently retried and the invocation served by the relaunched runtime: none of the
+		// clauses about the failure path (body, reaping, fresh processes afterwards) has a subject
+		c.SetHooks(hk.Arrived())
+		c.SetTrace("rt-launchfail-retried"+status, true)
+		c.SetSample(sampleLog(w, 160))
+		return
+	}
 
 	// 2. body
 	firstFault := map[string]string{
